@@ -605,10 +605,9 @@ def body(ctx):
 
     # ================================================================ pareto_front
     shapes = [(nv, nc) for nv in (0, 1, 2, 3) for nc in (1, 2, 5)]
-    for it in range(ctx.scale(800, 5000)):
-        def one_case():
-            nv, nc = shapes[it] if it < len(shapes) else (rng.randint(0, 60), rng.randint(1, 5))
-            kind = rng.choice(["grid", "grid", "grid2", "gauss", "dups", "chain"])
+    def pareto_case(it, preset=None):
+            nv, nc = shapes[it] if 0 <= it < len(shapes) else (rng.randint(0, 60), rng.randint(1, 5))
+            kind = rng.choice(["grid", "grid", "grid2", "gauss", "dups", "chain", "neartie", "neartie"])
             if kind == "grid":
                 d = [[float(rng.randint(0, 3)) for _ in range(nc)] for _ in range(nv)]
             elif kind == "grid2":
@@ -618,10 +617,42 @@ def body(ctx):
             elif kind == "dups":
                 base = [[float(rng.randint(0, 2)) for _ in range(nc)] for _ in range(max(1, nv // 3))]
                 d = [list(rng.choice(base)) for _ in range(nv)]
+            elif kind == "neartie":
+                # points that differ from one another by a few floating-point neighbours (or 1e-11 / 1e-9 relative) in
+                # some or all coordinates: distinct doubles, so strictly better / worse by the exact definition
+                base = [[rng.choice([5.0, 0.3, -2.0, 1.0, 1e-11, 123456.789, -1e-7, 0.0]) for _ in range(nc)]
+                        for _ in range(max(1, nv // 4))]
+                d = []
+                for _ in range(nv):
+                    r = list(rng.choice(base))
+                    mode = rng.choice(["all_up", "all_down", "some", "mixed", "exact"])
+                    for k in range(nc):
+                        if mode == "exact" or (mode == "some" and rng.random() < 0.5):
+                            continue
+                        sign = 1 if mode == "all_up" else -1 if mode == "all_down" else rng.choice([1, -1])
+                        how = rng.choice(["ulps", "ulps", "rel1e-11", "rel1e-9"])
+                        if how == "ulps":
+                            v = r[k]
+                            for _ in range(rng.choice([1, 1, 2, 7, 100, 1000])):
+                                v = math.nextafter(v, math.inf * sign)
+                            r[k] = v
+                        else:
+                            eps_ = 1e-11 if how == "rel1e-11" else 1e-9
+                            r[k] = r[k] + sign * eps_ * (abs(r[k]) if r[k] != 0 else 1.0)
+                    d.append(r)
             else:
                 d = [[float(i + (rng.randint(0, 1) if k else 0)) for k in range(nc)] for i in range(nv)]
                 rng.shuffle(d)
+            # the same point set at another scale of the objective values: dominance does not depend on it
+            scale_exp = 0
+            if rng.random() < 0.4:
+                scale_exp = rng.choice([-1, 1]) * rng.randint(1, 13)
+                f_ = 10.0 ** scale_exp
+                d = [[v * f_ for v in r] for r in d]
             nanmode = rng.choice(["complete", "complete", "sparse", "heavy", "row"])
+            if preset is not None:
+                d = [[float(v) if v is not None else float("nan") for v in r] for r in preset["data"]]
+                nv, nc, kind, scale_exp, nanmode = len(d), len(d[0]), "corpus", 0, "complete"
             if nanmode != "complete" and nv > 0:
                 pn = {"sparse": 0.08, "heavy": 0.45, "row": 0.0}[nanmode]
                 for r in d:
@@ -631,8 +662,12 @@ def body(ctx):
                 if nanmode == "row":
                     d[rng.randrange(nv)] = [float("nan")] * nc
             o = rng.choice([1, -1])
+            if preset is not None:
+                o = int(preset["orientation"])
+                nanmode = "complete" if all(v == v for r in d for v in r) else "sparse"
             arr = np.array(d, dtype=float).reshape(nv, nc)
-            layout = rng.choice(["C", "F", "int"]) if nanmode == "complete" and kind in ("grid", "dups", "chain") else rng.choice(["C", "F"])
+            layout = rng.choice(["C", "F", "int"]) if nanmode == "complete" and kind in ("grid", "dups", "chain") and scale_exp == 0 \
+                else rng.choice(["C", "F"])
             arg = np.asfortranarray(arr) if layout == "F" else arr.astype(np.int64) if layout == "int" and kind != "grid2" else arr
             case = {"data": d, "orientation": o, "layout": layout}
             holder = {}
@@ -649,7 +684,9 @@ def body(ctx):
                 add(f"pareto {o} {C.fmat(d) if nv else '[]'}", "pareto", res, case)
                 ndom = sum(res)
                 ctx.count(("pareto", o, tuple(map(tuple, map(lambda r: [C.f2h(v) for v in r], d)))), nv >= 2 and 0 < ndom,
-                          f"pareto/{nanmode}/o={o}/" + ("none_dominated" if ndom == 0 else "all_dominated" if ndom == nv else "mixed"),
+                          f"pareto/{nanmode}/o={o}/" + ("none_dominated" if ndom == 0 else "all_dominated" if ndom == nv else "mixed")
+                          + ("/neartie" if kind == "neartie" else "/corpus" if kind == "corpus" else "")
+                          + ("/scaled_down" if scale_exp < 0 else "/scaled_up" if scale_exp > 0 else ""),
                           sample={"op": "pareto", "data": d[:4], "orientation": o, "isdominated": res[:4]})
                 # ---- oracle: brute-force definition
                 def better(dj, di):
@@ -677,7 +714,15 @@ def body(ctx):
                 if how is not None:
                     ctx.hist['pareto_front/caller_edit/' + how] = ctx.hist.get('pareto_front/caller_edit/' + how, 0) + 1
                     step('pareto_front/after_caller_edit')
-        attempt('pareto_front', one_case)
+
+    for f in sorted((C.ROOT / "corpus" / PID).glob("*.json")):
+        import json as _json
+        c = _json.loads(f.read_text())
+        if c.get("entry") == "pareto_front":
+            for case_ in c["cases"]:
+                attempt('pareto_front', lambda: pareto_case(-1, case_))
+    for it in range(ctx.scale(800, 5000)):
+        attempt('pareto_front', lambda: pareto_case(it))
 
     # ---- the wrapper's shape guard: only 2-dimensional data reach the kernel
     for arr_ in (np.arange(4.), np.arange(8.).reshape(2, 2, 2), np.array(3.0), np.arange(6.).reshape(3, 2)):
